@@ -164,6 +164,7 @@ let dump_state (s : M.state) : string list =
 (* ---------- operations ---------- *)
 let who_of s : M.addr_str =
   if s = "bad" then M.ABad
+  else if s = "gov" then M.AGood (false, n_of_int 900)   (* the module authority: a well-formed address of an account that is none of the users *)
   else if s.[0] = 'u' then M.AGood (false, n_of_string (String.sub s 1 (String.length s - 1)))
   else if s.[0] = 'U' then M.AGood (true, n_of_string (String.sub s 1 (String.length s - 1)))
   else failwith ("who " ^ s)
